@@ -1,4 +1,5 @@
-import GateryModel.C08.Compat
+import GateryModel.C08.MemRead
+import GateryModel.C08.SeqCompat
 /-!
 # C08 — property theorems: a value the simulator reports as defined is never wrong
 
@@ -7,55 +8,49 @@ Model: `Nodes/Nodes.lean` (`evalNode`, following `simulateEvaluate` of the core 
 `harness/c03.cpp | gv_c08` (every node value of every simulated stimulus is compared).
 
 `u ⊑ v`: `v` is at least as defined as `u` and agrees with it.  `compat u v`: no bit is defined in both with
-different values.  Statements only; the work is in `C08/{Order,Mono,Compat}.lean`.
+different values.  Every node kind and hence every combinational netlist is monotone in `⊑`; compatibility and the
+property are corollaries.  Statements only; the work is in `C08/{Order,Mono,Compat}.lean`.
 -/
 namespace Gatery.C08.Props
 open Gatery.Nodes BV4
 
-/-- Every core node except the multiplexer is monotone: more defined inputs give a result that is at least as defined
-    and agrees on every bit that was already defined.  All widths, all operand values, any number of operands. -/
-theorem evalNode_mono (k : NodeKind) (hk : k.isMux = false) (w : Nat) {ins ins' : Ins} (h : InsLe ins ins') :
+/-- **Every core node is monotone** (Logic, Arithmetic, Compare, Shift, Rewire, Multiplexer, PriorityConditional, Constant):
+    more defined inputs give a result that is at least as defined and agrees on every bit that was already defined.
+    All widths, all operand values, any number of operands, any selector width and number of multiplexer inputs. -/
+theorem evalNode_mono (k : NodeKind) (w : Nat) {ins ins' : Ins} (h : InsLe ins ins') :
     evalNode k w ins ⊑ evalNode k w ins' :=
-  Gatery.Nodes.evalNode_mono k hk w h
+  Gatery.Nodes.evalNode_mono k w h
 
-/-- The multiplexer is monotone when every selector value addresses a data input (`2^selWidth ≤ #inputs`,
-    e.g. the 2-input multiplexers built by `IF`/`ELSE` and full `mux` tables). -/
-theorem evalMux_mono_inrange (w : Nat) {sel sel' : BV4} {data data' : Ins} (hs : sel ⊑ sel') (hd : InsLe data data')
-    (hr : 2 ^ sel.length ≤ data.length) :
-    evalNode .mux w (some sel :: data) ⊑ evalNode .mux w (some sel' :: data') :=
-  Gatery.Nodes.evalMux_mono_inrange w hs hd hr
+/-- The multiplexer in particular (`Node_Multiplexer.cpp:37-137`): with an undefined selector bit it yields undefined if
+    the selector may address no input (largest possible selector value `≥` number of data inputs) and the merge of all data
+    inputs otherwise; a defined selector copies its input or yields undefined out of range.  (Before the range test was added
+    the node was not monotone: selector `x1` over three inputs `1` gave `1`, the concretisation `11` gave `x`; the check had
+    reported that as `non_monotone_sources: kind=mux` and, through constant folding, as finding F13.) -/
+theorem evalMux_mono (w : Nat) {ins ins' : Ins} (h : InsLe ins ins') :
+    evalNode .mux w ins ⊑ evalNode .mux w ins' :=
+  Gatery.Nodes.evalMux_mono w h
 
-/-- … and not monotone otherwise (the code as written, `Node_Multiplexer.cpp:49-99`): selector `x1` over three equal
-    inputs `1` yields `1`; the concretisation `11` selects nothing and yields `x`. -/
-theorem evalMux_not_monotone :
-    ∃ ins ins' : Ins, InsLe ins ins' ∧ ¬ (evalNode .mux 1 ins ⊑ evalNode .mux 1 ins') := by
-  refine ⟨[some [.t, .x], some [.t], some [.t], some [.t]], [some [.t, .t], some [.t], some [.t], some [.t]], ?_, ?_⟩
-  · refine .cons ?_ (forall₂_refl optLe_refl _)
-    refine ⟨rfl, fun i => ?_⟩
-    match i with
-    | 0 => exact B4.le_refl _
-    | 1 => exact B4.x_le _
-    | (j+2) => simp [bit, B4.le_refl]
-  · intro h
-    have := h.2 0
-    revert this
-    decide
+/-- the former counterexample to monotonicity, on the code as it is now: the abstract run says `x` as well -/
+theorem evalMux_out_of_range_undefined :
+    evalNode .mux 1 [some [.t, .x], some [.t], some [.t], some [.t]] = [.x] ∧
+    evalNode .mux 1 [some [.t, .t], some [.t], some [.t], some [.t]] = [.x] ∧
+    evalNode .mux 1 [some [.x, .f], some [.t], some [.t], some [.t]] = [.t] := by decide
 
-/-- **Every** core node, the multiplexer included, maps compatible inputs to compatible outputs. -/
+/-- Every core node maps compatible inputs (no contradicting defined bits) to compatible outputs. -/
 theorem evalNode_compat (k : NodeKind) (w : Nat) {ins ins' : Ins} (h : InsCompat ins ins') :
     compat (evalNode k w ins) (evalNode k w ins') :=
   Gatery.Nodes.evalNode_compat k w h
 
-/-- Lift to combinational netlists (nodes in evaluation order, each reading earlier nodes only), by induction over the
-    netlist: compatible stimuli give compatible values at every node. -/
+/-- **Every combinational netlist is monotone** (nodes in evaluation order, each reading earlier nodes only; induction over
+    the netlist): refining the stimulus refines the value of every node. -/
+theorem evalNet_mono (net : List NetNode) {env env' : Env} (he : EnvLe env env') :
+    ValsLe (evalNet env net) (evalNet env' net) :=
+  evalNetFrom_mono he net .nil
+
+/-- … and compatible stimuli give compatible values at every node. -/
 theorem evalNet_compat (net : List NetNode) {env env' : Env} (he : EnvCompat env env') :
     ValsCompat (evalNet env net) (evalNet env' net) :=
   evalNetFrom_compat he net .nil
-
-/-- netlists in which no multiplexer occurs are monotone as a whole -/
-theorem evalNet_mono (net : List NetNode) (hm : muxFree net = true) {env env' : Env} (he : EnvLe env env') :
-    ValsLe (evalNet env net) (evalNet env' net) :=
-  evalNetFrom_mono he net hm .nil
 
 /-- **C08.**  Let `env'` assign 0/1 to (some or all) undefined stimulus bits of `env`.  If the run under `env` reports
     bit `b` of node `i` as defined `d`, and the run under `env'` computes a defined value `d'` for it, then `d = d'`:
@@ -76,15 +71,89 @@ theorem defined_never_wrong (net : List NetNode) {env env' : Env} (he : EnvLe en
   revert hb
   cases d <;> cases d' <;> simp [B4.compat, B4.ofBool]
 
+/-- The stronger form that monotonicity gives: a bit the abstract run reports as defined `d` **is** `d` in every run under a
+    refined stimulus (it cannot even become undefined). -/
+theorem defined_bit_persists (net : List NetNode) {env env' : Env} (he : EnvLe env env')
+    (i b : Nat) (u u' : BV4)
+    (hu : (evalNet env net).getD i none = some u) (hu' : (evalNet env' net).getD i none = some u')
+    (d : Bool) (hd : u.bit b = B4.ofBool d) : u'.bit b = B4.ofBool d := by
+  have := forall₂_getD (evalNet_mono net he) none none trivial i
+  rw [hu, hu'] at this
+  have hb := (this : u ⊑ u').2 b
+  rw [hd] at hb
+  cases d <;> simp [B4.le, B4.ofBool] at hb ⊢ <;> exact hb.symm
+
 /-- what constant folding relies on (`Circuit.cpp:1270-1336`, non-constant inputs set undefined, only fully defined
-    outputs folded): in a multiplexer-free cone, a fully defined abstract result is the result of every concretisation. -/
-theorem constFold_sound (net : List NetNode) (hm : muxFree net = true) {env env' : Env} (he : EnvLe env env')
+    outputs folded): a fully defined abstract result is the result of every concretisation — in every netlist. -/
+theorem constFold_sound (net : List NetNode) {env env' : Env} (he : EnvLe env env')
     (i : Nat) (u u' : BV4)
     (hu : (evalNet env net).getD i none = some u) (hu' : (evalNet env' net).getD i none = some u')
     (hdef : u.allDef = true) : u' = u := by
-  have := forall₂_getD (evalNet_mono net hm he) none none trivial i
+  have := forall₂_getD (evalNet_mono net he) none none trivial i
   rw [hu, hu'] at this
   exact (eq_of_le_of_allDef (this : u ⊑ u') hdef).symm
+
+/-! ## clocked netlists: registers with enable and synchronous reset, undefined initial register contents
+(`Nodes/Seq.lean`: `SeqNet`, `regEdge` = `Node_Register::simulateAdvance`; proof in `C08/SeqCompat.lean`) -/
+
+/-- **C08 over time.**  Two runs of one clocked netlist, over a stimulus of any length, under stimuli that agree up to undefined
+    bits (same reset pattern) and initial register contents that agree up to undefined bits — e.g. an abstract run and a run in
+    which the undefined stimulus bits *and the undefined initial register contents* are replaced by 0/1: if at cycle `t` bit `b` of
+    node `i` is defined in both runs, it has the same value.  (An undefined enable makes the register undefined.) -/
+theorem clocked_defined_never_wrong (c : Gatery.Nodes.SeqNet) (stim stim' : List Gatery.Nodes.Cycle)
+    (hs : Gatery.C01.StimCompat stim stim') (st st' : List BV4) (hst : EnvCompat st st') (hw : Gatery.C01.StateWF c.regs st)
+    (t i b : Nat) (u u' : BV4)
+    (hu : ((seqRun c stim st).getD t []).getD i none = some u) (hu' : ((seqRun c stim' st').getD t []).getD i none = some u')
+    (d d' : Bool) (hd : u.bit b = B4.ofBool d) (hd' : u'.bit b = B4.ofBool d') : d = d' := by
+  have hrun := Gatery.C01.seqRun_compat c stim stim' hs st st' hst hw
+  have hcyc : ValsCompat ((seqRun c stim st).getD t []) ((seqRun c stim' st').getD t []) := forall₂_getD hrun [] [] .nil t
+  have := forall₂_getD hcyc none none trivial i
+  rw [hu, hu'] at this
+  have hb := (this : compat u u').2 b
+  rw [hd, hd'] at hb
+  revert hb
+  cases d <;> cases d' <;> simp [B4.compat, B4.ofBool]
+
+-- non-vacuity: a 1-bit register with undefined initial content fed back through a NOT, two cycles, content concretised to 1
+example : Gatery.C01.StateWF [⟨1, some 1, none, none⟩] [[.x]] ∧ EnvCompat [[.x]] [[.t]] ∧
+    seqRun ⟨[⟨.input 0, 1, []⟩, ⟨.node (.logic .NOT) .bitvec, 1, [some 0]⟩], [⟨1, some 1, none, none⟩]⟩ [([], false), ([], false)] [[.t]]
+      = [[some [.t], some [.f]], [some [.f], some [.t]]] := by
+  refine ⟨.cons rfl .nil, .cons ⟨rfl, fun i => ?_⟩ .nil, by decide⟩
+  match i with
+  | 0 => exact B4.compat_x_left _
+  | (j+1) => simp [bit, B4.compat_refl]
+
+/-! ## memory read ports (`Node_MemPort::simulateEvaluate`, asynchronous read; model `C08/MemRead.lean`) -/
+
+/-- **The asynchronous memory read is monotone** in address, contents and read enable, for every memory size (powers of two
+    or not), word width and address width, in both `UndefinedReadAddrBehavior`s: with `EXACT` a partially undefined address
+    yields undefined if a candidate address is beyond the memory and otherwise the bitwise merge of *all* candidate words. -/
+theorem memRead_mono (exact : Bool) (w : Nat) {mem mem' : List BV4} {en en' addr addr' : Option BV4}
+    (hm : MemLe mem mem') (he : optLe en en') (ha : optLe addr addr') :
+    memRead exact w mem en addr ⊑ memRead exact w mem' en' addr' :=
+  Gatery.Nodes.memRead_mono exact w hm he ha
+
+/-- C08 for memory reads: a read-data bit reported as defined under a partially undefined address / partially undefined
+    contents has that value for every concretisation of address and contents. -/
+theorem memRead_defined_bit_persists (exact : Bool) (w : Nat) {mem mem' : List BV4} {en en' addr addr' : Option BV4}
+    (hm : MemLe mem mem') (he : optLe en en') (ha : optLe addr addr') (b : Nat) (d : Bool)
+    (hd : (memRead exact w mem en addr).bit b = B4.ofBool d) : (memRead exact w mem' en' addr').bit b = B4.ofBool d := by
+  have hb := (memRead_mono exact w hm he ha).2 b
+  rw [hd] at hb
+  cases d <;> simp [B4.le, B4.ofBool] at hb ⊢ <;> exact hb.symm
+
+/-- composed with the netlist theorem: address and enable computed by any combinational netlist from a refined stimulus -/
+theorem memRead_of_net_mono (exact : Bool) (w : Nat) (net : List NetNode) {env env' : Env} (he : EnvLe env env')
+    {mem mem' : List BV4} (hm : MemLe mem mem') (iEn iAddr : Nat) :
+    memRead exact w mem ((evalNet env net).getD iEn none) ((evalNet env net).getD iAddr none) ⊑
+    memRead exact w mem' ((evalNet env' net).getD iEn none) ((evalNet env' net).getD iAddr none) :=
+  memRead_mono exact w hm (forall₂_getD (evalNet_mono net he) none none trivial iEn)
+    (forall₂_getD (evalNet_mono net he) none none trivial iAddr)
+
+-- non-vacuity: 5 words of 2 bit, address `x0x` (candidates 0,1,4,5 — 5 is beyond the memory) and `0x0` (candidates 0, 2)
+example : memRead true 2 [[.t,.f],[.t,.f],[.t,.t],[.f,.f],[.t,.x]] none (some [.x,.f,.x]) = [.x,.x] := by decide
+example : memRead true 2 [[.t,.f],[.t,.f],[.t,.t],[.f,.f],[.t,.x]] none (some [.f,.x,.f]) = [.t,.x] := by decide
+example : memRead false 2 [[.t,.f],[.t,.f],[.t,.t],[.f,.f],[.t,.x]] none (some [.f,.x,.f]) = [.x,.x] := by decide
 
 /-! ### non-vacuity: a netlist with an AND, an out-of-range multiplexer and an adder, under a partially undefined stimulus -/
 
@@ -95,7 +164,8 @@ private def demoNet : List NetNode :=
    ⟨.node (.arith .ADD) .bitvec, 2, [some 3, some 1]⟩]
 
 example : (evalNet [[.x, .t], [.f, .f]] demoNet).getD 2 none = some [.f, .f] := by decide
-example : (evalNet [[.x, .t], [.f, .f]] demoNet).getD 3 none = some [.f, .f] := by decide
+example : (evalNet [[.x, .t], [.f, .f]] demoNet).getD 3 none = some [.x, .x] := by decide
+example : (evalNet [[.x, .f], [.f, .f]] demoNet).getD 3 none = some [.f, .f] := by decide
 example : (evalNet [[.t, .t], [.f, .f]] demoNet).getD 3 none = some [.x, .x] := by decide
 example : EnvLe [[.x, .t], [.f, .f]] [[.t, .t], [.f, .f]] := by
   refine .cons ⟨rfl, fun i => ?_⟩ (.cons (le_refl _) .nil)
